@@ -294,10 +294,29 @@ def rule_gsd(ctx, tu):
     ctx.floor(R, 4)
 
 
+def rule_every_entry(ctx, tu, I):
+    """C14.EVERY-ENTRY -- the element-wise processing modes (Poisson, floor) visit every entry of the state: in the initialisers
+    the cell-major state `mesh_x` is addressed only by an index that runs over its whole size (cells x species)."""
+    R = "C14.EVERY-ENTRY"
+    n = 0
+    for r in I.subs:
+        if not r["fn"].startswith("engineexport_initialize") or r["table"] != "mesh_x":
+            continue
+        n += 1
+        lay = r["layout"] or []
+        ok = r["status"] == "ok" and len(lay) == 1 and lay[0][0] == "flat" and len(lay[0]) > 1 and repr(lay[0][1]) in ("C*S", "S*C")
+        ctx.check(ok, R, r["node"], r["fn"], r["text"], "index over all cells x species entries",
+                  "the state is processed with an index of kind %s: only part of the entries is drawn / floored, the others "
+                  "keep their real-valued amount" % ("][".join(str(k) for k in lay) or r.get("detail") or "?"))
+    ctx.need(n >= 6, R, "only %d element accesses of mesh_x in the initialisers" % n)
+    ctx.floor(R, 6)
+
+
 def run(ctx):
     tu = ctx.cx
     rule_gsd(ctx, tu)
     I = idxmod.Idx(tu)
+    rule_every_entry(ctx, tu, I)
     n = vlay.check_init_layouts(ctx, "C14.TRANSPOSE", tu, I, what=("mesh_x0",))
     ctx.floor("C14.TRANSPOSE", 2)
     rule_dispatch(ctx, tu)
@@ -308,6 +327,10 @@ def run(ctx):
     c08.rule_py_seed(ctx, ctx.py, "C14.SEED-PY")
     # ... and nothing survives from one set-up to the next: no function-local static (a cached normal deviate, a scratch buffer)
     c11.rule_static(ctx, tu, "C14.STATIC")
+    # shared clause: the mode (and the seed) written in a script file reach the constructor when the file is read (C12.SCHEMA)
+    from ..core import borrow
+    from . import c12
+    borrow(ctx, "C14", c12.rule_schema, ctx.py)
     from .. import ffi
     ffi.rule_sig(ctx, "C14.FFI", only={"mesh_state", "mesh_chstt", "seed", "init_state_processing"})
     from .. import lints
